@@ -15,16 +15,17 @@
 (* schedule to every state; the action constraint Report prints it the first   *)
 (* time a violation class / a cover class is seen -- these schedules are       *)
 (* replayed into the real InitiatorBehavior by pv-p2p.                         *)
-EXTENDS Initiator, ProtocolMonitor, PromotionProps, Json
+EXTENDS Initiator, ProtocolMonitor, PromotionProps, Lifecycle, Json
 
 CONSTANTS SliceProtos, Cmds, Evs, Strict, Versions, ShareSets,
           MaxDepth, MaxBfq, MaxLfq, MaxInflight,
           KnownC27, KnownC28, KnownC29
 
-VARIABLES hist, pan
+VARIABLES hist, pan,
+          lc       \* connection-lifecycle observer (Lifecycle.tla): qualifies the C29 finding keys
 
-mcvars == <<w, ev, mon, bad, pp, pbad, pan, hist>>
-View == <<w, mon, bad, pp, pbad, pan>>
+mcvars == <<w, ev, mon, bad, pp, pbad, pan, lc, hist>>
+View == <<w, mon, bad, pp, pbad, pan, lc>>
 
 \* messages the environment may deliver / confirm
 Alphabet ==
@@ -35,12 +36,14 @@ Alphabet ==
 MInit == /\ Init
          /\ mon = MonInit(Versions) /\ bad = {}
          /\ pp = PPInit(MaxPeers, MaxWarm, MaxHot) /\ pbad = {}
-         /\ pan = {} /\ hist = <<>>
+         /\ pan = {} /\ hist = <<>> /\ lc = LcInit(FALSE)
 
-\* C29 finding key: a duplicate Connected (no Disconnected in between) is kept apart
+\* C29 finding key: a duplicate Connected (no Disconnected in between) is kept apart, and so is a panic reached by
+\* an event sequence that breaks the connection lifecycle a TcpInterface guarantees
 PanicKey(e) ==
   LET dup == e.ev = "connected" /\ e.p \in DOMAIN w.peers /\ w.peers[e.p].conn \in {"Connected", "Initialized"}
   IN "initiator/" \o (IF dup THEN "connected-dup" ELSE e.ev) \o "/" \o w'.panic
+        \o (IF lc'.ok THEN "" ELSE "/lifecycle-violating")
 
 \* ProtocolMonitor / PromotionProps accumulate; here only the last step's classes are kept
 MS(e, A) == /\ (Strict => EnvOK(mon, e))
@@ -48,6 +51,7 @@ MS(e, A) == /\ (Strict => EnvOK(mon, e))
             /\ LET R == MonResult(mon, e, w'.out) IN mon' = R.M /\ bad' = R.nb
             /\ LET R == PPResult(pp, e, w'.out, w'.cold, w'.warm, w'.hot, w'.banned, DOMAIN w'.peers)
                IN pp' = R.P /\ pbad' = R.nb
+            /\ lc' = LcNext(lc, e.ev, e.p, w'.out)
             /\ pan' = IF w'.panic # "" THEN {PanicKey(e)} ELSE {}
             /\ hist' = Append(hist, e)
 
